@@ -73,7 +73,8 @@ Lemma closes_sim fo : forall cs f Q0 Q1 k st x,
     /\ close_loop f (Q0 ++ Q1 ++ closes_str cs ++ k) (length Q0) st = Ok st1
     /\ Rel st1 x1 /\ m_g x1 = m_g x /\ m_rings x1 = m_rings x /\ m_next x1 = m_next x
     /\ m_stack x1 = skipn (length cs) (m_stack x)
-    /\ (cs = [] -> st1 = st) /\ (cs <> [] -> m_stack x1 = [] -> s_recipes st1 = []).
+    /\ (cs = [] -> st1 = st) /\ (cs <> [] -> m_stack x1 = [] -> s_recipes st1 = [])
+    /\ (m_stack x1 <> [] -> s_recipes st1 = s_recipes st).
 Proof.
   induction cs as [|a cs IH]; intros f Q0 Q1 k st x HQ Hk Hcs HR Hat Hpb Hp1 Hlen Hf.
   - exists x, st. cbn [closes_toks flat_map m_run closes_str app length skipn]. split; [reflexivity|].
@@ -82,7 +83,7 @@ Proof.
       rewrite (find_idx_inner _ fnc_next_open HQ incl_open), (find_idx_inner _ fnc_next_close HQ incl_close).
       pose proof (contz_no_close None k Hk) as H. cbn [osym_str app] in H. apply Nat.ltb_ge. apply Nat.ltb_ge in H. lia.
     + split; [exact HR|]. split; [reflexivity|]. split; [reflexivity|]. split; [reflexivity|]. split; [reflexivity|].
-      split; [reflexivity|]. intros C; now elim C.
+      split; [reflexivity|]. split; [intros C; now elim C|reflexivity].
   - destruct f as [|f]; [lia|]. cbn [length] in Hlen, Hf.
     destruct (m_stack x) as [|top stk] eqn:Es; [cbn in Hlen; lia|]. cbn [length] in Hlen.
     pose proof HR as (Rg & Rc & Rp & Rcy & Rba & Rbr & Rpb).
@@ -126,17 +127,22 @@ Proof.
     { rewrite !app_length. cbn [length]. lia. }
     rewrite Etext2, Elen.
     destruct (IH f (Q0 ++ Q1 ++ [")"%char]) (osym_str a) k st' x' (inner_osym a) Hk Hcs1 HR' Hat Hpb')
-      as (x1 & st1 & Em & El & HR1 & Eg & Er & En & Estk & Hnil & Hrec).
+      as (x1 & st1 & Em & El & HR1 & Eg & Er & En & Estk & Hnil & Hrec & Hkeep).
     + intros Hne. unfold x'. cbn [m_pend]. now rewrite (Hcs2 Hne).
     + unfold x'. cbn [m_stack]. lia.
     + lia.
     + exists x1, st1. split; [exact Em|]. split; [exact El|]. split; [exact HR1|].
       split; [exact Eg|]. split; [exact Er|]. split; [exact En|]. split; [exact Estk|].
-      split; [discriminate|]. intros _ E1.
-      destruct cs as [|b r].
-      * rewrite (Hnil eq_refl). unfold st', closed_state. cbn [s_recipes].
-        rewrite Estk in E1. cbn [length skipn] in E1. unfold x' in E1. cbn [m_stack] in E1. now rewrite E1.
-      * apply Hrec; [discriminate|exact E1].
+      split; [discriminate|]. split.
+      * intros _ E1.
+        destruct cs as [|b r].
+        -- rewrite (Hnil eq_refl). unfold st', closed_state. cbn [s_recipes].
+           rewrite Estk in E1. cbn [length skipn] in E1. unfold x' in E1. cbn [m_stack] in E1. now rewrite E1.
+        -- apply Hrec; [discriminate|exact E1].
+      * intros E1. rewrite (Hkeep E1). unfold st', closed_state. cbn [s_recipes].
+        destruct (rev stk) as [|z0 t0] eqn:Ers; [|reflexivity].
+        exfalso. apply E1. rewrite Estk. unfold x'. cbn [m_stack].
+        assert (stk = []) by (rewrite <- (rev_involutive stk), Ers; reflexivity). subst stk. now destruct (length cs).
 Qed.
 
 (** ** flat items with several closings *)
@@ -222,7 +228,7 @@ Proof.
   rewrite Etext.
   destruct (closes_sim fo (x_closes x) (Datatypes.S (length ([] ++ lin_prefix (xbase x) ++ closes_str (x_closes x) ++ k)))
               [] (lin_prefix (xbase x)) k st1 m1 (lin_prefix_inner fo (xbase x) Hokb) Hk Hcs HR1 Hat1)
-    as (m2 & st2 & Em & El & HR2 & _ & _ & _ & Estk & Hnil & Hrec).
+    as (m2 & st2 & Em & El & HR2 & _ & _ & _ & Estk & Hnil & Hrec & _).
   - rewrite Hpb1, Ep1. reflexivity.
   - intros Hne. rewrite Ep1, (Hbond Hne). reflexivity.
   - now rewrite Es1.
